@@ -88,7 +88,7 @@ func TestEntry(t *testing.T) {
 		code = harness.SelfTestMain(t, root, args[1:])
 	case "hash":
 		n, _ := strconv.Atoi(args[2])
-		code = harness.HashMain(t, harness.Registry[args[1]], seedFromEnv(), "quick", n)
+		code = harness.HashMain(t, harness.Registry[args[1]], seedFromEnv(), "quick", n, len(args) > 3 && args[3] == "race")
 	case "israce":
 		code = 1
 		if p := harness.Registry[args[1]]; p != nil && p.Race {
